@@ -476,23 +476,31 @@ def check_name_resolution(ctx, prog, tag):
     n = 0
     FIELD = "path_join_callback"
     joiners = []
+
+    def _mentions(pl):
+        return isinstance(pl, dict) and any(isinstance(e, dict) and e.get("n") == FIELD for e in pl.get("p", []))
     for f in prog.fns.values():
         if f.crate != "minijinja" or f.kind == "closure":
             continue
+        reads = False
         for bb, i, st in f.all_stmts():
-            rv = st.get("rv")
-            if rv and rv["k"] == "discr" and any(isinstance(e, dict) and e.get("n") == FIELD for e in rv["place"].get("p", [])):
-                if f not in joiners:
-                    joiners.append((f, bb))
-    for f, dbb in joiners:
-        # the switch on the Option and its Some side
-        sb = None
-        for b in sorted(f.reachable):
-            t = f.term(b)
-            if t["k"] == "switch" and b == dbb:
-                sb = b
-        if sb is None:
+            rv = st.get("rv") or {}
+            if _mentions(rv.get("place")) or any(_mentions(op_place(o)) for o in query.rv_operands(rv) if "c" not in o):
+                reads = True
+        if not reads:
             continue
+        # the switch that tells "a callback is installed": on the field itself or on a view of it (`as_deref()`, `as_ref()`)
+        for sb in sorted(f.reachable):
+            if f.term(sb)["k"] != "switch":
+                continue
+            cd = flow.cond_of(f, sb)
+            if cd.kind != "discr" or cd.place is None:
+                continue
+            os_ = flow.origins(f, {"cp": cd.place}, through_calls=lambda q: 0 if q.name.endswith(("::as_deref", "::as_ref", "::deref", "::as_mut")) else None)
+            if _mentions(cd.place) or any(o.kind == "arg" and FIELD in o.proj for o in os_):
+                joiners.append((f, sb))
+                break
+    for f, sb in joiners:
         t = f.term(sb)
         some = [x for v, x in t["arms"] if v == "1"]
         if not some:
